@@ -317,7 +317,8 @@ def load_known(prop):
 def write_replay(prop, name, content):
     d = os.path.join(VERIF, "replays")
     os.makedirs(d, exist_ok=True)
-    p = os.path.join(d, f"{prop}-{name}.case")
+    # (violation names may carry workspace paths: never a directory separator in the file name)
+    p = os.path.join(d, f"{prop}-{name}.case".replace("/", "_").replace(os.sep, "_"))
     open(p, "w", encoding="utf-8").write(content)
     return p
 
